@@ -8,6 +8,8 @@ VERIF = Path(__file__).resolve().parents[2]
 
 def main():
     res = json.loads((VERIF / "seeded" / "RESULTS.json").read_text())
+    fp_file = VERIF / "seeded" / "FIRST_PASS.json"     # verdict of the check as it stood when the change was first evaluated (rounds 2-5)
+    first = json.loads(fp_file.read_text()) if fp_file.exists() else {}
     rows, n, c, cf = [], 0, 0, 0
     for d in sorted((VERIF / "seeded").iterdir()):
         if not (d / "meta.json").exists():
@@ -28,16 +30,31 @@ def main():
             files = re.findall(r"[\w/.-]+\.py", files)
         summ = " ".join(str(meta.get("summary", "")).split())
         needs = " ".join(str(meta.get("needs", "")).split())
+        fpv = first.get(d.name, {}).get("first_pass")
+        if fpv:
+            verdict += f" (first evaluation, before any follow-up: {fpv})"
         rows.append(f"- `{d.name}` ({', '.join(Path(f).name for f in (files or []))}) — {summ[:260]}{'…' if len(summ) > 260 else ''} "
                     f"*Needs:* {needs[:200]}{'…' if len(needs) > 200 else ''} → check `{meta['property']}` ({r.get('tier', 'quick')}): {verdict}.")
     out = ["<!-- seeded-register -->", "## 6b. Seeded changes and the checks that report them (generated from seeded/)", "",
            "Each entry is a change to /repo written by a fresh sub-agent that saw only the property text and its own scratch worktree "
            "(nothing from /verif), confirmed by `harness/tools/verify_seed.sh` in a scratch worktree: the whole test suite passes with it "
-           "(`825 passed, 2 skipped`), its demonstration fails with it and passes without. Round 1 = `-m1..m3`, round 2 = `-m4..m6`. "
+           "(`825 passed, 2 skipped`), its demonstration fails with it and passes without. Rounds: 1 = `-m1..m3`, 2 = `-m4..m6`, 3 = `-m7..m9`, "
+           "4 = `-m10..m12`, 5 = `-m13..m15` (rounds 4 and 5 asked for the hard kinds: history-dependent state, two cooperating sites, fault "
+           "paths, non-default options and entry points). Changes whose context was moved by later `fix:` commits were ported keeping their intent "
+           "and re-verified. "
            "Result = `bin/check <property> --tier quick` (default seed) run against a scratch worktree with the patch applied "
            "(`harness/tools/run_seeded.py`; `seeded/RESULTS.json`). The checks are never told about these patches: a miss is repaired by "
            "a principled generator/model extension, and the entry stays as a regression target.", "",
-           f"Totals: {n} kept changes, {c} reported ({cf} with a concrete failing input), {n - c} not reported at the time of the last run.", ""]
+           f"Totals: {n} kept changes, {c} reported ({cf} with a concrete failing input), {n - c} not reported at the time of the last run.", "",
+           "First-evaluation rates (the check as it stood when a round's changes arrived, i.e. an estimate of what a *new* change of that kind "
+           "meets): " + "; ".join(
+               f"round {r}: {sum(1 for v in first.values() if v['round'] == r and v['first_pass'] == 'failing-input')}/"
+               f"{sum(1 for v in first.values() if v['round'] == r)} with a failing input, "
+               f"{sum(1 for v in first.values() if v['round'] == r and v['first_pass'] == 'broken-tie')} as a broken tie only, "
+               f"{sum(1 for v in first.values() if v['round'] == r and v['first_pass'] == 'not-reported')} not reported"
+               for r in sorted({v['round'] for v in first.values()})) + ". Every miss was handed back to the property's owner as a *class* of "
+           "inputs/histories/options to cover (never the patch), which is why the final column differs; the residual risk for an unseen change of "
+           "the hard kinds is what the last rounds' first-evaluation rates show.", ""]
     out += rows
     out.append("<!-- /seeded-register -->\n")
     block = "\n".join(out)
